@@ -41,6 +41,7 @@ type SourceSpec struct {
 	ValueErr bool     `json:"value_err,omitempty"`
 	WatchErr bool     `json:"watch_err,omitempty"`
 	Manglers []string `json:"manglers,omitempty"`
+	Wrapped  bool     `json:"wrapped,omitempty"` // behind sourcewrap.NewTransformingSource (no manglers): must behave exactly as without
 }
 
 type ClientSpec struct {
@@ -134,6 +135,11 @@ func (g *gen) part(richness, pInvalid int, allowBad bool) *Part {
 		p.MA = map[string]int{}
 		for i, k := 0, g.in(1, 4); i < k; i++ {
 			p.MA[words[g.r.IntN(len(words))]] = n*10 + g.in(0, 1)
+		}
+	}
+	if g.pct(richness / 3) {
+		for i, k := 0, g.in(1, 2); i < k; i++ {
+			p.Pairs = append(p.Pairs, [2]int{n*10 + i, n*10 + i + 5})
 		}
 	}
 	if g.pct(richness) {
@@ -382,6 +388,9 @@ func genCore(prop string, seed uint64, faulty bool) *Scenario {
 	}
 	for _, kind := range kinds {
 		s := SourceSpec{Kind: kind}
+		if (kind == "blank" && g.pct(30)) || (kind == "watch" && g.pct(8)) {
+			s.Wrapped = true
+		}
 		if kind != "blank" {
 			s.Init = g.part(35, initInvalid, false)
 			if k.share > 0 && g.pct(k.share) && s.Init.P != nil {
@@ -414,8 +423,14 @@ func genCore(prop string, seed uint64, faulty bool) *Scenario {
 				if long {
 					nops = g.in(40, 150)
 				}
+				kr := k
+				if s.Wrapped {
+					// an ill-typed value never gets past the wrapper's reverse
+					// translation: that is the wrapper's error, not a stacking failure
+					kr.allowBad = false
+				}
 				for o := 0; o < nops; o++ {
-					c.Ops = append(c.Ops, g.reporterOp(k, &c, len(c.Ops)))
+					c.Ops = append(c.Ops, g.reporterOp(kr, &c, len(c.Ops)))
 				}
 				if j == 0 && n == 1 && g.pct(k.doneOps) {
 					c.Ops = append(c.Ops, Op{K: "done"})
